@@ -61,7 +61,7 @@ def _is_log_call(c):
 
 def _own_nodes(fn):
     """nodes of fn's body excluding nested function bodies"""
-    stack = list(fn.body)
+    stack = [b for b in fn.body if not isinstance(b, (ast.FunctionDef, ast.AsyncFunctionDef))]
     while stack:
         n = stack.pop()
         yield n
@@ -192,3 +192,99 @@ def analysis_is_effect_free():
     out.append(ob("analysis#frame:no_application_of_received_callables", not bad_apply, "; ".join(bad_apply)))
     out.append(Obligation("analysis#frame:reachable_functions_counted", "frame", 0, [], z3.BoolVal(len(seen) >= 20), 0, {"trivial": True, "n": len(seen)}))
     return out
+
+
+# ---------------------------------------------------------------------------------------------
+# C03: nothing but program content flows into a signature
+# ---------------------------------------------------------------------------------------------
+SIG_FILES = ["dds/introspect.py", "dds/_introspect_indirect.py", "dds/fun_args.py", "dds/_retrieve_objects.py", "dds/structures_utils.py", "dds/_eval_ctx.py", "dds/structures.py", "dds/_lambda_funs.py", "dds/_global_ctx.py"]
+ENV_CALLS = {"id", "hash", "getcwd", "getpid", "time", "monotonic", "perf_counter", "random", "uuid4", "uuid1", "getenv", "gethostname"}
+ENV_NAMES = {"__file__", "environ"}
+# (file, enclosing function, how the value is used) -- uses that provably do not reach a hashed value
+ALLOWED_ENV_USES = {
+    ("dds/introspect.py", "_introspect_class", "id"): "object identities are collected in `obj_ids`, which is never read (the id-keyed global cache is never written)",
+    ("dds/introspect.py", "_introspect_fun", "id"): "object identities only key a lookup in GlobalContext.cached_fun_interactions, which is never written (checked below)",
+    ("dds/structures_utils.py", "FunctionIndirectInteractionUtils.all_loads.rec", "id"): "visited-set membership only",
+    ("dds/structures_utils.py", "FunctionIndirectInteractionUtils.all_stores.rec", "id"): "visited-set membership only",
+    ("dds/introspect.py", "_new_getfile", "__file__"): "locates the source text of a class (content), the file name itself is not hashed",
+}
+
+
+def signature_inputs_are_content_only():
+    out = []
+    # (1) the process-wide interaction cache is never populated, so nothing computed in an earlier evaluation is returned
+    writes = []
+    for f in DDS_FILES:
+        src, tree = locate.load(f)
+        for n in ast.walk(tree):
+            if isinstance(n, (ast.Assign, ast.AugAssign)):
+                tgts = n.targets if isinstance(n, ast.Assign) else [n.target]
+                for t in tgts:
+                    base = t.value if isinstance(t, ast.Subscript) else t
+                    if isinstance(base, ast.Attribute) and base.attr == "cached_fun_interactions" and isinstance(base.value, ast.Name) and base.value.id == "_global_context":
+                        writes.append("%s line %s" % (f, n.lineno))
+            if isinstance(n, ast.Call) and isinstance(n.func, ast.Attribute) and n.func.attr in ("update", "setdefault", "__setitem__"):
+                v = n.func.value
+                if isinstance(v, ast.Attribute) and v.attr == "cached_fun_interactions" and isinstance(v.value, ast.Name) and v.value.id == "_global_context":
+                    writes.append("%s line %s" % (f, n.lineno))
+    out.append(ob("signatures#frame:process_wide_interaction_cache_never_written", not writes, "; ".join(writes)))
+    # (2) identity / environment values do not occur in the signature-computing modules outside log lines and the listed uses
+    bad = []
+    funs = all_functions()
+    for (f, q), fn in sorted(funs.items()):
+        if f not in SIG_FILES:
+            continue
+        for n in _own_nodes(fn):
+            what = None
+            if isinstance(n, ast.Call) and not _is_log_call(n):
+                fx = n.func
+                nm = fx.id if isinstance(fx, ast.Name) else (fx.attr if isinstance(fx, ast.Attribute) else None)
+                if nm in ENV_CALLS:
+                    what = nm
+            elif isinstance(n, ast.Name) and n.id in ENV_NAMES:
+                what = n.id
+            elif isinstance(n, ast.Attribute) and n.attr in ENV_NAMES:
+                what = n.attr
+            if what is None:
+                continue
+            if _inside_log_call(fn, n):
+                continue
+            if (f, q, what) in ALLOWED_ENV_USES:
+                continue
+            bad.append("%s:%s line %s uses %s" % (f, q, n.lineno, what))
+    out.append(ob("signatures#frame:no_identity_or_environment_value_in_signature_code", not bad, "; ".join(bad[:6])))
+    # (3) iteration over a set feeds a signature only through sorted()
+    bad = []
+    for (f, q) in (("dds/introspect.py", "_introspect_fun"), ("dds/introspect.py", "_introspect_class")):
+        fn = funs.get((f, q))
+        if fn is None:
+            bad.append("%s:%s missing" % (f, q))
+            continue
+        for n in ast.walk(fn):
+            if isinstance(n, ast.Call) and isinstance(n.func, ast.Name) and n.func.id == "_all_paths":
+                par = _parent_call(fn, n)
+                if not (par is not None and isinstance(par.func, ast.Name) and par.func.id == "sorted"):
+                    bad.append("%s:%s line %s iterates the set of paths without sorted()" % (f, q, n.lineno))
+    fn = funs.get(("dds/introspect.py", "InspectFunction.get_local_vars"))
+    if fn is None or not any(isinstance(n, ast.Call) and isinstance(n.func, ast.Name) and n.func.id == "sorted" for n in ast.walk(fn)):
+        bad.append("get_local_vars no longer sorts the set of local names")
+    out.append(ob("signatures#frame:set_iteration_only_through_sorted", not bad, "; ".join(bad)))
+    return out
+
+
+def _inside_log_call(fn, node):
+    for n in ast.walk(fn):
+        if isinstance(n, ast.Call) and _is_log_call(n):
+            for m in ast.walk(n):
+                if m is node:
+                    return True
+    return False
+
+
+def _parent_call(fn, node):
+    for n in ast.walk(fn):
+        if isinstance(n, ast.Call):
+            for a in list(n.args) + [k.value for k in n.keywords]:
+                if a is node:
+                    return n
+    return None
